@@ -582,7 +582,7 @@ func main() {
 		r.Finish("replay of a recorded operation sequence")
 	}
 
-	nSeq := r.Pick(6000, 400000)
+	nSeq := r.Pick(6000, 300000)
 	const nOps = 30
 	const chunk = 100
 	var mu sync.Mutex
@@ -671,7 +671,7 @@ func main() {
 
 	scale := int64(1)
 	if !r.Quick() {
-		scale = 40
+		scale = 30
 	}
 	for k, v := range map[string]int64{
 		"new.ok": 4500, "seq.completed": 3000, "op.AddPeer": 30000, "op.AddPeers": 20000, "op.ClearOld": 8000, "op.Reload": 5000,
